@@ -416,6 +416,9 @@ type executor struct {
 	// changes stay undelivered until the next successful reply that can carry updates
 	failedPending       bool
 	failedPendingBefore bool // value of failedPending when the current request started
+	// kinds of failed requests whose changes are still undelivered (see noteFailure)
+	taintKind    map[string]string
+	valuesBefore map[string]string // cacheValues() when the current request started
 	// containers that had an undelivered change when a request failed
 	tainted map[string]bool
 	// a policy event changed containers; no NRI reply has had a chance to carry the change yet
@@ -446,6 +449,15 @@ func (e *executor) snapshotStates() map[string]string {
 func (e *executor) exec(op hcOp) *stepResult {
 	r := &stepResult{Op: op, PreState: e.snapshotStates()}
 	e.failedPendingBefore = e.failedPending
+	e.valuesBefore = e.cacheValues()
+	switch op.Kind {
+	case "reconfig", "reconfig-same", "coldstartdone", "phase":
+		// not delivered through NRI (configuration updates and policy events
+		// run outside requests; the lanes of a phase are not sequential)
+	default:
+		e.h.stub.enterRequest(op.Kind)
+		defer e.h.stub.enterRequest("")
+	}
 	m, p := e.m, e.h.m.nri
 	switch op.Kind {
 	case "pod":
@@ -516,6 +528,7 @@ func (e *executor) exec(op hcOp) *stepResult {
 		if r.Err != nil {
 			c.State = stCreateFailed
 			e.failedPending = true
+			e.noteFailure("CreateContainer(" + op.Kind + ")")
 			e.taintPending()
 			r.Desc = fmt.Sprintf("%s(%s)", r.Handler, r.Target)
 			r.collect(m, "")
@@ -525,7 +538,7 @@ func (e *executor) exec(op hcOp) *stepResult {
 				ups, serr := p.StopContainer(bg, m.nriPod(pod), m.nriCtr(c))
 				r.collectReply(m, "", nil, ups, "update")
 				if serr == nil {
-					e.failedPending = false // this reply could carry the left-over updates
+					e.delivered() // this reply could carry the left-over updates
 				}
 				_ = p.RemoveContainer(bg, m.nriPod(pod), m.nriCtr(c))
 				c.State = stRemoved
@@ -637,7 +650,7 @@ func (e *executor) exec(op hcOp) *stepResult {
 			c.State = stStopped
 			r.collectReply(m, "", nil, ups, "update")
 			if serr == nil {
-				e.failedPending = false
+				e.delivered()
 			}
 		}
 		c.State = stRemoved
@@ -654,10 +667,15 @@ func (e *executor) exec(op hcOp) *stepResult {
 		c.State = stRemoved
 		r.Handler, r.Target = "RemoveContainer", c.ID
 		r.Err = p.RemoveContainer(bg, m.nriPod(m.pods[c.Pod]), m.nriCtr(c))
-		r.Pushes = e.h.stub.takePushes() // the reply cannot carry updates of other containers
+		// The event has no reply that could carry updates of other containers, and a
+		// push from inside the handler would block on the runtime's adaptation lock:
+		// whatever the release changed for others stays undelivered until the next
+		// reply, exactly like the left-overs of a failed request.
 		r.collect(m, "")
-		if r.Err == nil && len(r.Pushes) > 0 {
-			e.failedPending, e.eventPending = false, false
+		if len(e.h.m.cache.GetPendingContainers()) > 0 {
+			e.failedPending = true
+			e.noteFailure("RemoveContainer(removelive)")
+			e.taintPending()
 		}
 
 	case "stoppod":
@@ -749,10 +767,11 @@ func (e *executor) exec(op hcOp) *stepResult {
 	switch r.Handler {
 	case "CreateContainer", "UpdateContainer", "StopContainer", "Synchronize", "updateConfig":
 		if r.Err != nil || r.CfgError != nil {
+			e.noteFailure(r.Handler)
 			e.failedPending = true // (a rejected configuration update is a failed request, too)
 			e.taintPending()
 		} else if r.CfgError == nil {
-			e.failedPending = false
+			e.delivered()
 			e.eventPending = false
 		}
 	case "ColdStartDone":
@@ -773,6 +792,47 @@ func (e *executor) runtimeLists() ([]*api.PodSandbox, []*api.Container) {
 		ctrs = append(ctrs, e.m.nriCtr(c))
 	}
 	return pods, ctrs
+}
+
+// cacheValues fingerprints what the cache records for every container the
+// model considers live (the values C05 compares with the runtime's view).
+func (e *executor) cacheValues() map[string]string {
+	out := map[string]string{}
+	for _, c := range e.m.live() {
+		if cc, ok := e.h.m.cache.LookupContainer(c.ID); ok {
+			out[c.ID] = fmt.Sprintf("%s|%s|%d|%d|%d|%d", cc.GetCpusetCpus(), cc.GetCpusetMems(), cc.GetCPUShares(), cc.GetCPUQuota(), cc.GetCPUPeriod(), cc.GetMemoryLimit())
+		}
+	}
+	return out
+}
+
+// noteFailure records, per live container, the kind of failed request
+// ("<handler>(<op kind>)") that changed its cached values without being able
+// to deliver the change. A failed request that changed nothing records nothing.
+func (e *executor) noteFailure(kind string) {
+	for id, after := range e.cacheValues() {
+		if before, ok := e.valuesBefore[id]; ok && before != after {
+			if e.taintKind == nil {
+				e.taintKind = map[string]string{}
+			}
+			e.taintKind[id] = kind
+		}
+	}
+}
+
+// delivered forgets the attribution of undelivered changes: a reply that can
+// carry updates has been returned.
+func (e *executor) delivered() {
+	e.failedPending = false
+	e.taintKind = nil
+}
+
+// failedKind names the failed request that last changed container id without delivering the change.
+func (e *executor) failedKind(id string) string {
+	if k, ok := e.taintKind[id]; ok {
+		return k
+	}
+	return "unattributed"
 }
 
 func (e *executor) taintPending() {
